@@ -1,8 +1,8 @@
 (* C15 -- Shipped problems' transitions and rewards match the documented dynamics.
    Age classes: position 0 = youngest ... last = oldest. *)
 From Coq Require Import ZArith QArith List Bool.
-From MdpaxV Require Import Model.ListUtil Model.Problems Model.ProblemOps Proofs.C15P Proofs.C14P Proofs.GenDeMoorP Proofs.GenMirjaliliP Proofs.GenHendrixP.
-From MdpaxGen Require GenDeMoor GenMirjalili GenHendrix.
+From MdpaxV Require Import Model.ListUtil Model.Problems Model.ProblemOps Proofs.C15P Proofs.C14P Proofs.GenDeMoorP Proofs.GenMirjaliliP Proofs.GenHendrixP Proofs.GenForestP.
+From MdpaxGen Require GenDeMoor GenMirjalili GenHendrix GenForest.
 Import GenDeMoor.
 Import ListNotations.
 Open Scope Z_scope.
@@ -33,6 +33,13 @@ Theorem generated_hendrix_transition_is_the_modelled_one : forall (m : nat) (ca 
   (snd (GenHendrix.gen_transition m ca cb pa pb state [qa; qb] [ia; ib]) == hx_reward ca cb pa pb qa qb ia ib)%Q.
 Proof. exact gen_hx_transition_eq. Qed.
 Print Assumptions generated_hendrix_transition_is_the_modelled_one.
+
+(* ... and for Forest (gen/GenForest.v): jnp.where as if-then-else; action 1 = cut, event 1 = fire *)
+Theorem generated_forest_transition_is_the_modelled_one : forall S r1 r2 age (cut fire : bool),
+  GenForest.gen_forest_transition S r1 r2 [age] [if cut then 1 else 0] [if fire then 1 else 0] =
+  ([forest_next S age cut fire], forest_reward S r1 r2 age cut).
+Proof. exact gen_forest_transition_eq. Qed.
+Print Assumptions generated_forest_transition_is_the_modelled_one.
 
 Theorem generated_issuing_is_the_modelled_issuing : forall stock d,
   gen_issue_fifo stock d = issue_fifo stock d /\ gen_issue_lifo stock d = issue_lifo stock d.
